@@ -56,7 +56,7 @@ def _minimise_child(prop, tier, case, vjson, opts):
     ctx = eng.worker_init(prop, tier, opts)
     try:
         v = Violation.from_json(vjson)
-        core.set_min_budget(75.0)
+        core.set_min_budget(float(os.environ.get("VERIF_MIN_BUDGET") or 75.0))
         small = eng.minimise(ctx, case, v)
         core.set_min_budget(None)
         res = eng.execute(ctx, small, EventLog(0))
@@ -222,7 +222,7 @@ def cmd_check(args):
     reported = []
     seen_cls = set()
     for out, v in mine:
-        if v.key() in seen_cls or len(reported) >= 3:
+        if v.key() in seen_cls or len(reported) >= int(os.environ.get("VERIF_MAX_REPORT") or 3):
             continue
         seen_cls.add(v.key())
         small, vj = _in_child(_minimise_child, prop, tier, out.case, v.to_json(), opts)
